@@ -208,7 +208,7 @@ class TokenStore(Generic[_T]):
         for token in tokens:
             if token.store_handle is not None and (
                     token.store_handle.block.store is not self or
-                    not start <= (token.store_handle.block.index, token.store_handle.index) <= end):
+                    not start <= (token.store_handle.block.index, token.store_handle.index) < end):
                 raise ValueError('Token already in a store.')
 
         if start_i == end_i:
